@@ -447,6 +447,24 @@ def rejected_build_events():
             lsl.GraphBuilder().add(lsl.Calc(lambda u, v: u + v, va, vb, _name="c")).build_model()
         return f
 
+    def auto_clash():
+        # a variable asks for an automatic transformation, and a variable with the name the new variable would get is
+        # already there: the build is rejected - and a rejected build leaves the user's variables as they were
+        sv = lsl.param(1.0, lsl.Dist(tfd.HalfCauchy, loc=0.0, scale=25.0), name="s")
+        sv.auto_transform = True
+        other = lsl.Var(0.0, name="s_transformed")
+        y = lsl.Var(lsl.Calc(lambda a, b: a + b, sv, other), name="y")
+        before = (bool(sv.weak), bool(sv.has_dist), bool(sv.parameter), bool(sv.auto_transform))
+        try:
+            lsl.GraphBuilder().add(y).build_model()
+            got = "accepted"
+        except RuntimeError as ex:
+            got = "duplicate_names" if ("Duplicate" in str(ex) or "already present" in str(ex)) else classify(ex)
+        after = (bool(sv.weak), bool(sv.has_dist), bool(sv.parameter), bool(sv.auto_transform))
+        out.append({"ev": "must_reject", "what": "auto_transform_name_clash", "got": got, "expect": "duplicate_names",
+                    "unchanged": before == after})
+
+    auto_clash()
     attempt("cycle_through_at", cyc_at, "cycle")
     attempt("duplicate_node_names", dup_nodes, "duplicate_names")
     attempt("duplicate_var_names", dup_vars, "duplicate_names")
